@@ -35,6 +35,206 @@ def check(model: Model, run: Run) -> None:
     ambiguity(model, run, "E1-no-exponential-ambiguity", None, 10, 8)
     # ---- scanner progress (best effort, structural) ---------------------------------------
     progress_rule(model, run)
+    # ---- recursion: no value is descended into twice by one frame --------------------------
+    double_descent(model, run)
+
+
+E4_FIXTURE = '''
+def depth(node):
+    kids = list(node.children)
+    if not kids:
+        return 0
+    deepest = max(kids, key=depth)
+    return 1 + depth(deepest)
+'''
+
+
+def _recursive_components(model: Model, mr, extra=None):
+    """call graph over the package (callees resolved by the type resolver, constructors to __init__/__post_init__, a function
+    named as a value counts as called) and its recursive strongly connected components"""
+    funcs = {q: fi for q, fi in model.functions.items() if not isinstance(fi.node, ast.Lambda)}
+    if extra:
+        funcs.update(extra)
+    g = {}
+    sites = {}
+    for q, fi in funcs.items():
+        outs = {}
+        for c in walk_no_nested(fi.node):
+            tg = set()
+            if isinstance(c, ast.Call):
+                try:
+                    res = mr.r.callees(c, fi, fi.cls) if q in model.functions else ("unknown",)
+                except Exception:
+                    res = ("unknown",)
+                if res[0] == "funcs":
+                    tg |= {f.qualname for f in res[1]}
+                elif res[0] == "ctor":
+                    for mn in ("__init__", "__post_init__"):
+                        mt = model.find_method(res[1], mn)
+                        if mt is not None:
+                            tg.add(mt.qualname)
+                # a function handed over as an argument (key=..., a callback) is applied by the callee
+                for a in list(c.args) + [k.value for k in c.keywords]:
+                    if isinstance(a, ast.Name):
+                        q2 = model.resolve_name(fi.module, a.id) if q in model.functions else None
+                        if q2 is None and extra and a.id in extra:
+                            q2 = a.id
+                        if q2 in funcs:
+                            tg.add(q2)
+                if isinstance(c.func, ast.Name) and extra and c.func.id in extra:
+                    tg.add(c.func.id)
+            for t_ in tg:
+                outs.setdefault(t_, []).append(c)
+        g[q] = set(outs)
+        sites[q] = outs
+    index, low, stack, on, comps = {}, {}, [], set(), []
+    counter = [0]
+
+    def strong(v):
+        work = [(v, iter(sorted(g.get(v, ()))))]
+        index[v] = low[v] = counter[0]
+        counter[0] += 1
+        stack.append(v)
+        on.add(v)
+        while work:
+            node, it = work[-1]
+            advanced = False
+            for w in it:
+                if w not in g:
+                    continue
+                if w not in index:
+                    index[w] = low[w] = counter[0]
+                    counter[0] += 1
+                    stack.append(w)
+                    on.add(w)
+                    work.append((w, iter(sorted(g.get(w, ())))))
+                    advanced = True
+                    break
+                if w in on:
+                    low[node] = min(low[node], index[w])
+            if advanced:
+                continue
+            work.pop()
+            if work:
+                low[work[-1][0]] = min(low[work[-1][0]], low[node])
+            if low[node] == index[node]:
+                comp = []
+                while True:
+                    w = stack.pop()
+                    on.discard(w)
+                    comp.append(w)
+                    if w == node:
+                        break
+                if len(comp) > 1 or node in g.get(node, ()):
+                    comps.append(sorted(comp))
+    for v in sorted(g):
+        if v not in index:
+            strong(v)
+    return funcs, sites, comps
+
+
+def _arms(func: ast.AST):
+    """node id -> list of (id of the If/Try it sits in, arm) from the outside in"""
+    out = {}
+
+    def visit(node, path):
+        out[id(node)] = path
+        if isinstance(node, ast.If):
+            visit(node.test, path)
+            for s_ in node.body:
+                visit(s_, path + [(id(node), "body")])
+            for s_ in node.orelse:
+                visit(s_, path + [(id(node), "orelse")])
+            return
+        if isinstance(node, ast.IfExp):
+            visit(node.test, path)
+            visit(node.body, path + [(id(node), "body")])
+            visit(node.orelse, path + [(id(node), "orelse")])
+            return
+        for ch in ast.iter_child_nodes(node):
+            if isinstance(ch, (ast.FunctionDef, ast.AsyncFunctionDef, ast.Lambda, ast.ClassDef)) and ch is not func:
+                continue
+            visit(ch, path)
+    visit(func, [])
+    return out
+
+
+def _double_descents(fi_node: ast.AST, events):
+    """pairs (first, second) of recursive call sites in one function where the whole result of the first (or a value read
+    off it) is an argument or the receiver of the second, and the two are not in exclusive arms of a test"""
+    arms = _arms(fi_node)
+    ev_ids = {id(c) for c in events}
+    # names bound to the whole result of an event
+    holders = {}
+    for a in walk_no_nested(fi_node):
+        if isinstance(a, (ast.Assign, ast.AnnAssign)) and a.value is not None and id(a.value) in ev_ids:
+            for t_ in (a.targets if isinstance(a, ast.Assign) else [a.target]):
+                if isinstance(t_, ast.Name):
+                    holders.setdefault(t_.id, []).append(a.value)
+    # one level of plain aliasing / attribute reads: x = holder ; x = holder.attr
+    for a in walk_no_nested(fi_node):
+        if isinstance(a, ast.Assign) and len(a.targets) == 1 and isinstance(a.targets[0], ast.Name):
+            v = a.value
+            while isinstance(v, ast.Attribute):
+                v = v.value
+            if isinstance(v, ast.Name) and v.id in holders and a.targets[0].id not in holders:
+                holders[a.targets[0].id] = list(holders[v.id])
+    out = []
+    for c2 in events:
+        operands = list(c2.args) + [k.value for k in c2.keywords] + ([c2.func.value] if isinstance(c2.func, ast.Attribute) else [])
+        for o in operands:
+            firsts = []
+            for x in ast.walk(o):
+                if id(x) in ev_ids and x is not c2:
+                    firsts.append(x)                      # f(g(x)) with both recursive
+                elif isinstance(x, ast.Name) and x.id in holders:
+                    firsts.extend(holders[x.id])
+            for c1 in firsts:
+                if c1 is c2:
+                    continue
+                p1, p2 = dict(arms.get(id(c1), [])), dict(arms.get(id(c2), []))
+                if any(k in p2 and p2[k] != v for k, v in p1.items()):
+                    continue
+                out.append((c1, c2))
+    return out
+
+
+def double_descent(model: Model, run: Run) -> None:
+    """E4: inside a recursive group of functions no frame hands the result of one recursive call to another recursive call.
+    The second call walks the value the first one has already walked; with nesting depth d that is 2^d frames."""
+    from .c05 import may_raise
+    mr = may_raise(model)
+    # fixture: the rule has to see the two descents of a "deepest child first" helper
+    ftree = ast.parse(E4_FIXTURE)
+    fnode = ftree.body[0]
+
+    class _F:
+        node = fnode
+        module = "<fixture>"
+        cls = None
+        qualname = "depth"
+        name = "depth"
+    _, fsites, fcomps = _recursive_components(model, mr, {"depth": _F})
+    fx = [c for cs in fsites["depth"].values() for c in cs] if ["depth"] in fcomps else []
+    fx = list({id(c): c for c in fx}.values())
+    ok = bool(_double_descents(fnode, fx))
+    run.ob("E0-engine-fixtures", ok, {"fixture": "double descent through max(key=f) then f(deepest)"})
+    if not ok:
+        raise AnalysisError("E4 self-check failed on the double-descent fixture")
+    funcs, sites, comps = _recursive_components(model, mr)
+    run.coverage["recursive_groups"] = [[q.split("sansldap.")[-1] for q in c] for c in comps]
+    run.floor("recursive groups of functions", len(comps), 2)
+    for comp in comps:
+        members = set(comp)
+        for q in comp:
+            fi = funcs[q]
+            evs = list({id(c): c for t_, cs in sites[q].items() if t_ in members for c in cs}.values())
+            pairs = _double_descents(fi.node, evs)
+            run.ob("E4-no-double-descent", not pairs, {"function": q.split("sansldap.")[-1], "recursive_call_sites": len(evs)})
+            for c1, c2 in pairs:
+                run.fail(Finding("E4-no-double-descent", q, f"{norm(c1)[:50]} -> {norm(c2)[:50]}",
+                                 f"{fi.name} is part of the recursive group {[x.split('.')[-1] for x in comp]}: the value produced by the recursive call `{norm(c1)[:60]}` "
+                                 f"is descended into again by `{norm(c2)[:60]}` in the same frame; each nesting level doubles the work (2^depth)", model.loc(fi.module, c2)))
 
 
 def ambiguity(model: Model, run: Run, rule: str, only_module, floor_sites: int, floor_patterns: int) -> None:
